@@ -140,8 +140,8 @@ def fs_concrete_lookup(st, path):
     return tree.get(p)
 
 
-def new_fs(content_cap=4, tag='fs', on_new=None, fixed=None, shared_names=False, symlinks=False):
-    return {'cfg': {'content_cap': content_cap, 'on_new': on_new, 'fixed': fixed, 'shared_names': shared_names, 'symlinks': symlinks}, 'entries': (), 'tag': tag}
+def new_fs(content_cap=4, tag='fs', on_new=None, fixed=None, shared_names=False, symlinks=False, read_may_fail=False):
+    return {'cfg': {'content_cap': content_cap, 'on_new': on_new, 'fixed': fixed, 'shared_names': shared_names, 'symlinks': symlinks, 'read_may_fail': read_may_fail}, 'entries': (), 'tag': tag}
 
 
 def io_error(): return Opaque('std::io::Error')
@@ -330,6 +330,11 @@ def m_file_read_to_end(ex, st, c):
     e, pos = f.data
     st.world['fslog'] = st.world.get('fslog', ()) + (('read', e.path),)
     isdir = kind_is(e, K_DIR)
+    if st.world['fs']['cfg'].get('read_may_fail') if st.world.get('fs') else False:
+        # opt-in: any read of an existing regular file may fail with an I/O error (EIO, EACCES after open, ...)
+        iofail = z3.Bool(ex.fresh('read_io_error'))
+        st.world['fs_iofail'] = st.world.get('fs_iofail', ()) + ((iofail, e.path),)
+        isdir = b_or(isdir, iofail)
     data, n = read_range(e, pos, limit)
     # the read advances the position of the file it reads from
     newpos = bv_add(pos, n, LW)
